@@ -61,6 +61,8 @@ def run_sequence(ctx, FST, rnd, weights, max_nodes):
         r = rnd.random()
         if r < 0.08:
             step = {'op': 'reparse', 'path': [], 'kind': '-', 'form': '-', 'code': None, 'opts': {}, 'ttype': 'Module', 'ptype': '-', 'field': '-'}
+        elif r < 0.25:
+            step = edits.gen_step(rnd, root, donors, None, norm=norm, ops=['put_line_comment', 'put_docstr'], kinds=['stmt'])
         else:
             step = edits.gen_step(rnd, root, donors, weights, norm=norm, with_par=True)
         if step is None:
